@@ -235,7 +235,18 @@ func VH_C03_api() {
 				touches = vOr(touches, vCov(s2, pos))
 			}
 		}
-		_, n2 := vFindTagged(out.Features(), "src2")
+		f2, n2 := vFindTagged(out.Features(), "src2")
+		if n2 == 1 && wlen > 0 {
+			// a source that covers only part of the record is clipped and re-based like any feature
+			b2 := vAtoms(f2.Loc)
+			xx := vIntIn("xx", 0, L)
+			vAssume(xx < wlen)
+			sp := 0
+			for k := 0; k < wlen; k++ {
+				sp = vIte(xx == k, (ns+k)%L, sp)
+			}
+			vAssert("partial-source-follows-the-window", vCov(b2, xx) == vCov(s2, sp))
+		}
 		if ne >= ns {
 			vAssert("non-overlapping-source-dropped", vImplies(vAnd(!touches, vOr(s2[0].e <= ns, ne <= s2[0].s)), n2 == 0))
 		}
